@@ -287,7 +287,7 @@ def run(chk, repo, tier):
                what='%s addresses only matched atoms: every index is '
                     'mapped_index[self.idx*]' % c.name,
                found=', '.join(bad))
-    chk.need('R16.4', n_calls, 15, 'molecule accessor calls in edits')
+    chk.need('R16.4', n_calls, 8, 'molecule accessor calls in edits')
     # ---- R16.5 ------------------------------------------------------------------
     check_run_reactants(chk, repo)
     _class_state(chk, repo)
